@@ -219,6 +219,7 @@ type hsOut struct {
 	Ms             int64  `json:"ms"`
 	LimitMs        int64  `json:"limit_ms"`
 	Launches       int32  `json:"launches"`
+	AgainOk        bool   `json:"again_ok"`
 	Hung           bool   `json:"hung"`
 }
 
@@ -297,6 +298,19 @@ func runHandshakeCase(c hsCase, tmp string) (hsCase, hsOut) {
 		out.VersionMatches = cl.NegotiatedVersion() == version
 	} else {
 		out.Proto, out.Net = "-", "-"
+	}
+	if !out.Ok && !out.Hung && !out.Panic {
+		// the same client asked again: the line it rejected must stay rejected
+		func() {
+			defer func() { recover() }()
+			done := make(chan error, 1)
+			go func() { _, e := cl.Start(); done <- e }()
+			select {
+			case e := <-done:
+				out.AgainOk = e == nil
+			case <-time.After(5 * time.Second):
+			}
+		}()
 	}
 	// the scripted plugin goes away first, so that Kill does not sit out its grace period
 	sr.Exit()
